@@ -160,3 +160,13 @@ func vPoolsSane(tag string) {
 	x, y := ctxPool.Get().(*fasthttp.RequestCtx), ctxPool.Get().(*fasthttp.RequestCtx)
 	vAssert(x != y, tag+".request-context-has-one-owner")
 }
+
+// vLiteralField encodes one field as an HPACK literal without indexing with
+// raw strings (lengths below 127).
+func vLiteralField(name, value []byte) []byte {
+	b := []byte{0x00, byte(len(name))}
+	b = append(b, name...)
+	b = append(b, byte(len(value)))
+	return append(b, value...)
+}
+
